@@ -136,3 +136,8 @@ Definition api_merge_chunks (n ld rd : json) : json :=
                (make_merge_chunks (Z.to_nat z) dl dr)
   | _, _, _ => bad_input
   end.
+
+(* the generated source facts the runner was built with: [guard_is_any_diff, entry_eq_strict, conflict_assert_strict] *)
+Definition api_merge_facts : json :=
+  JArr [JBool (match chunks_guard with GuardAnyDiff => true | GuardListTruthy => false end);
+        JBool entry_eq_strict; JBool conflict_assert_strict].
